@@ -13,7 +13,7 @@ def check(tier):
     n = lexcommon.lex_replay(rep, pvh, ["MC_PongoLexer_code_q.cfg", "MC_PongoLexer_mixed_q.cfg", "MC_PongoLexer_text_q.cfg"] if q else
                              ["MC_PongoLexer_code_t.cfg", "MC_PongoLexer_text_t.cfg", "MC_PongoLexer_mixed_t.cfg"], KINDS)
     n += lexcommon.fixture_traces(rep, pvh, KINDS)
-    rep.cov["traces_validated_against_impl"] = rep.extra.get("fixture_traces", 0)
+    rep.cov["traces_validated_against_impl"] += n
     rep.assumptions += ["columns are 1-based and counted in bytes; a lexer error is positioned at the start of the construct being lexed "
                         "(an unclosed verbatim block: at the end of input)"]
     return rep.finish(
